@@ -359,12 +359,157 @@ func runC12(p *Prog, r *Report) {
 	sub9 := NewReport("C12x", "quick")
 	runC09(p, sub9)
 	for _, o := range sub9.Obs {
-		if o.Rule == "C09.R4" {
+		// ... and every network operation of a probe observes the scan's context: the SOCKS5 connect is
+		// DialContext(ctx), every HTTP request of the docker / elastic probes carries a context derived from it
+		// (C09.R2 dial clause, C10.R3 request clauses re-evaluated) - a probe that runs on
+		// context.Background() makes Ctrl-C wait out the data timeout, forever with --timeout 0
+		if o.Rule == "C09.R4" || (o.Rule == "C09.R2" && strings.HasSuffix(o.Construct, "/dial")) {
 			o2 := *o
 			o2.Rule = "C12.R3"
 			r.Obs = append(r.Obs, &o2)
 		}
 	}
+	sub10 := NewReport("C12x", "quick")
+	checkRequestTimeouts(p, sub10)
+	n10 := 0
+	for _, o := range sub10.Obs {
+		if o.Rule == "C10.R3" && strings.Contains(o.Construct, "/request#") {
+			o2 := *o
+			o2.Rule = "C12.R3"
+			r.Obs = append(r.Obs, &o2)
+			n10++
+		}
+	}
+	if n10 < 3 {
+		r.Viol("C12.R3", "probe-requests", "-", "the HTTP requests of the docker and elastic probes are found", fmt.Sprint(n10))
+	}
+	// R5: a probe interrupted by cancellation never puts a broken record into the result stream: every
+	// Scanner.Scan returns, whenever its error may be nil, either no record (nil interface) or a freshly
+	// allocated one - never an interface wrapped around a possibly nil pointer, which passes the worker's
+	// `result != nil` test and crashes the logger that renders it
+	r.Min("C12.R5", 3)
+	for _, sc := range p.Implementers(modPath+"/pkg/scan", "Scanner", "Scan") {
+		ok, why := recordContract(p, sc, 0)
+		r.Check(ok, "C12.R5", FuncName(sc)+"/record-never-nil-pointer", p.Pos(sc.Pos()), "with a possibly nil error the probe returns nil or a freshly allocated record (no interface around a nil pointer reaches the result stream)", why)
+	}
+}
+
+// recordContract: on every returning path of fn whose error may be nil, result #0 is a nil interface, a
+// fresh allocation, a value known non-nil, or result #0 of a same-package helper that itself satisfies the
+// contract and whose error is the returned error / is known nil on the path.
+func recordContract(p *Prog, fn *ssa.Function, d int) (bool, string) {
+	if d > 2 || fn.Blocks == nil || fn.Signature.Results().Len() != 2 {
+		return false, "helper " + FuncName(fn) + " not analysable"
+	}
+	fp := Paths(fn)
+	if fp.Truncated {
+		return false, "too many paths in " + FuncName(fn)
+	}
+	_, ifaceRes := fn.Signature.Results().At(0).Type().Underlying().(*types.Interface)
+	nOK := 0
+	for _, s := range fp.Segs {
+		if !s.Returns() || retClass(s) == retFail {
+			continue
+		}
+		v := resultStore(s)
+		if v == nil {
+			if ifaceRes {
+				continue
+			}
+			// pointer result: nil together with a possibly nil error breaks the contract, unless the error cell was never nil
+			if retClass(s) == retOK || retClass(s) == retUnknown {
+				ret := s.Exit.(*ssa.Return)
+				if len(ret.Results) > 0 && resultCellUnset(s, ret.Results[0]) && retClass(s) == retUnknown {
+					continue // named results never assigned on this path: classification of the error decides; unknown error with zero record
+				}
+				return false, FuncName(fn) + " returns a nil record with a possibly nil error"
+			}
+			continue
+		}
+		v = s.Resolve(v)
+		if mi, isMI := v.(*ssa.MakeInterface); isMI {
+			v = s.Resolve(mi.X)
+		}
+		if _, isA := v.(*ssa.Alloc); isA {
+			nOK++
+			continue
+		}
+		if known, isNil := s.NilFact(v); known && !isNil {
+			nOK++
+			continue
+		}
+		// a constructor helper of the package whose every return is a fresh allocation
+		if c, isC := v.(*ssa.Call); isC {
+			if g := StaticCallee(&c.Call); g != nil && g.Pkg == fn.Pkg && g.Blocks != nil && g.Signature.Results().Len() == 1 {
+				fresh, nRet := true, 0
+				for _, b := range g.Blocks {
+					if ret, isR := b.Instrs[len(b.Instrs)-1].(*ssa.Return); isR {
+						nRet++
+						for _, o := range p.Origins(ret.Results[0]) {
+							if _, isA := o.(*ssa.Alloc); !isA {
+								fresh = false
+							}
+						}
+					}
+				}
+				if fresh && nRet > 0 {
+					nOK++
+					continue
+				}
+			}
+		}
+		if ex, isEx := v.(*ssa.Extract); isEx && ex.Index == 0 {
+			if c, isC := ex.Tuple.(*ssa.Call); isC {
+				if m := IfaceMethod(&c.Call); m != nil && m.Name() == fn.Name() {
+					nOK++
+					continue // a wrapper forwarding the delegate's own interface value: the delegate is checked itself
+				}
+				g := StaticCallee(&c.Call)
+				ev := errOf(c)
+				if g != nil && g.Pkg == fn.Pkg && ev != nil {
+					sameErr := false
+					ret := s.Exit.(*ssa.Return)
+					if i := errResultIndex(fn); i >= 0 && i < len(ret.Results) {
+						rv := s.Resolve(ret.Results[i])
+						if u, isU := ret.Results[i].(*ssa.UnOp); isU && u.Op == token.MUL {
+							for _, e := range s.Events {
+								if e.Kind == EvStore && e.Addr == u.X {
+									rv = s.Resolve(e.Val)
+								}
+							}
+						}
+						sameErr = rv == ssa.Value(ev)
+					}
+					known, isNil := s.NilFact(ev)
+					if sameErr || (known && isNil) {
+						if ok, why := recordContract(p, g, d+1); ok {
+							nOK++
+							continue
+						} else {
+							return false, why
+						}
+					}
+					return false, fmt.Sprintf("%s returns the record of %s with a nil error on a path where that call failed: an interface around a nil pointer enters the result stream", FuncName(fn), g.Name())
+				}
+			}
+		}
+		return false, FuncName(fn) + " returns a record of unknown nil-ness (" + s.Term(v) + ") with a possibly nil error"
+	}
+	return true, ""
+}
+
+// resultCellUnset: the returned value is a load of a named-result cell that was not stored on this path.
+func resultCellUnset(s *Seg, v ssa.Value) bool {
+	u, ok := v.(*ssa.UnOp)
+	if !ok || u.Op != token.MUL {
+		return false
+	}
+	for _, e := range s.Events {
+		if e.Kind == EvStore && e.Addr == u.X {
+			return false
+		}
+	}
+	return true
 }
 
 // spawnedBy: goroutine g is (transitively) started by function f on some path.
